@@ -139,6 +139,22 @@ def install_env(P):
     P.opaque_hooks["_griffe.expressions:safe_get_expression"] = lambda P_, a, k: opt(P_, "annotation_expr", lambda: SAny("expr"))
 
 
+def install_helper_contracts(P):
+    """Callee contracts of the two helpers every reader calls (each proved on its real body below)."""
+    P.opaque_hooks[U + "docstring_warning"] = lambda P_, a, k: None
+    for mod in ("google", "numpy", "sphinx"):
+        P.opaque_hooks[f"_griffe.docstrings.{mod}:docstring_warning"] = lambda P_, a, k: None
+
+    def pda(P_, a, k):
+        ann = a[0]
+        if isinstance(ann, SUnion):
+            ann = P_.choose(ann)
+        P_.prove("callee_pre.parse_docstring_annotation_gets_a_string", isinstance(ann, (str, SStr)))
+        g = z3.Bool(P_._fresh_name("annotation_parsed"))
+        return SUnion([(g, SAny("expr", kind="Expr")), (z3.Not(g), ann)])
+    P.opaque_hooks[U + "parse_docstring_annotation"] = pda
+
+
 def rd_pre(n, o):
     """Reader precondition: 0 <= o and (o >= n or the last line is not blank)."""
     return z3.And(o >= 0, z3.Or(o >= n, z3.Not(blank(LINE(n - 1)))))
@@ -237,6 +253,76 @@ def items_wellshaped(P, items, google, tag):
         it = P.choose(it)
     lines = it[1] if google else it
     return zint(models._b_len(P, [lines], {})) >= 1
+
+
+# =========================================================================== helpers every reader relies on
+@contract("C12", "utils.docstring_warning", [U + "docstring_warning"], floor=2, replay="replay_parsers")
+def c_docstring_warning(P):
+    install_env(P)
+    doc, lines, n = mk_docstring(P)
+    offset = P.fresh_int("offset")
+    msg = P.fresh_str("message")
+    members = P.enum_members("LogLevel")
+    k = P.fresh_int("log_level_index")
+    P.assume(z3.And(k.z >= 0, k.z < len(members)))
+    level = P.choose(SUnion([(k.z == i, m) for i, m in enumerate(members)]))
+    kind, res = outcome(P, lambda: call(P, U + "docstring_warning", doc, offset, msg, level))
+    finish(P, doc, kind, res, post=lambda r: P.prove("post.returns_none", r is None))
+
+
+@contract("C12", "utils.parse_docstring_annotation", [U + "parse_docstring_annotation"], floor=2, replay="replay_parsers")
+def c_parse_docstring_annotation(P):
+    install_env(P)
+    doc, lines, n = mk_docstring(P)
+    ann = P.fresh_str("annotation")
+    level = P.fresh_enum("LogLevel", "log_level")
+    kind, res = outcome(P, lambda: call(P, U + "parse_docstring_annotation", ann, doc, level))
+
+    def post(r):
+        if isinstance(r, SUnion):
+            r = P.choose(r)
+        P.prove("post.returns_the_string_or_an_expression", isinstance(r, SAny) or r is ann or (isinstance(r, SStr) and r.z.eq(ann.z)))
+    finish(P, doc, kind, res, post=post)
+
+
+@contract("C12", "models.Docstring.lines", ["_griffe.models:Docstring.lines"], floor=2, replay="replay_parsers")
+def c_docstring_lines(P):
+    """The line view every parser works on is exactly value.split("\\n"): joining the lines with "\\n" gives the cleaned value back."""
+    value = P.fresh_str("doc_value")
+    doc = SObj("Docstring", {"value": value, "parent": None, "lineno": None}, ident=z3.Int("docstring_id"))
+    kind, res = outcome(P, lambda: call(P, "_griffe.models:Docstring.lines", doc))
+    if kind == "raise":
+        P.expects["exc"] = P.resolve_cls(res)
+        P.prove("no_exception_escapes", False, exc=P.resolve_cls(res))
+        return
+    seq = P.to_seq(res)
+    N_ = ufn("split_n_0a", StrS, IntS)
+    AT_ = ufn("split_at_0a", StrS, IntS, StrS)
+    P.expects["clause"] = "lines"
+    P.prove("post.as_many_lines_as_newline_separated_pieces", zint(P.seq_len(seq)) == N_(value.z))
+    i = z3.Int("i_line")
+    P.assume(z3.And(i >= 0, i < N_(value.z)))
+    if P.branch(i < zint(P.seq_len(seq))):
+        P.prove("post.each_line_is_the_newline_separated_piece", zstr(P.seq_at(seq, SInt(i))) == AT_(value.z, i))
+    P.cover("lines")
+
+
+@contract("C12", "models.Docstring.__init__", ["_griffe.models:Docstring.__init__"], floor=2, replay="replay_parsers")
+def c_docstring_init(P):
+    """The constructor stores inspect.cleandoc(value.rstrip()): the source of the invariant WF(lines) every reader contract assumes."""
+    raw = P.fresh_str("raw_text")
+    doc = SObj("Docstring", {}, ident=z3.Int("docstring_id"))
+    kind, res = outcome(P, lambda: call(P, "_griffe.models:Docstring.__init__", doc, raw))
+    if kind == "raise":
+        P.expects["exc"] = P.resolve_cls(res)
+        P.prove("no_exception_escapes", False, exc=P.resolve_cls(res))
+        return
+    v = doc.fields.get("value")
+    CLEAN = ufn("cleandoc", StrS, StrS)
+    RSTRIP = ufn("str_rstrip", StrS, StrS)
+    P.prove("post.value_is_cleandoc_of_rstripped_text", isinstance(v, SStr) and v.z.eq(CLEAN(RSTRIP(raw.z))))
+    P.prove("post.parent_defaults_to_none", doc.fields.get("parent", 0) is None)
+    P.cover("init")
 
 
 # =========================================================================== Google: leaf readers
@@ -407,6 +493,7 @@ def g_reader_driver(fname):
         offset = P.fresh_int("offset")
         P.assume(rd_pre(n.z, offset.z))
         P.witness["offset"] = offset
+        install_helper_contracts(P)
         P.opaque_hooks[G + "_read_block_items"] = contract_block_items(P, n, True)
         P.opaque_hooks[G + "_read_block"] = contract_block(P, n)
         q = G + fname
@@ -420,7 +507,270 @@ def g_reader_driver(fname):
 
 
 for _f in G_READERS:
-    contract("C12", "google." + _f, [G + _f], floor=3, replay="replay_parsers")(g_reader_driver(_f))
+    contract("C12", "google." + _f, [G + _f], floor=3, replay="replay_parsers", split=16)(g_reader_driver(_f))
+
+
+# =========================================================================== Numpy: leaf readers and section readers
+def n_block_items_loops(P, q, n):
+    def inv0(P_, L, pre):
+        return z3.And(zint(L.new_offset) >= zint(pre["offset"]), zint(L.new_offset) < n.z)
+    P.loop_specs[(q, 0)] = dict(mode="inv", name="skip_blank", inv=inv0, variant=lambda P_, L, pre: mk_int(n.z - zint(L.new_offset)))
+
+    def inv1(P_, L, pre):
+        base = z3.And(zint(L.new_offset) >= zint(pre["offset"]) + 1, zint(models._b_len(P_, [L.current_item], {})) >= 1)
+        return z3.And(base, zbool(items_wellshaped(P_, L["items"], False, "inv")))
+    P.loop_specs[(q, 1)] = dict(mode="inv", name="items", inv=inv1, variant=lambda P_, L, pre: mk_int(n.z - zint(L.new_offset)),
+                                hints={"current_item": lambda P_, nm: hint_item_lines(P_, nm), "items": hint_numpy_items,
+                                       "line": lambda P_, nm: P_.fresh_str(nm), "cont_indent": hint_int})
+
+
+@contract("C12", "numpy._read_block_items", [N + "_read_block_items"], floor=6, replay="replay_parsers")
+def c_n_read_block_items(P):
+    install_env(P)
+    doc, lines, n = mk_docstring(P)
+    offset = P.fresh_int("offset")
+    P.assume(rd_pre(n.z, offset.z))
+    P.witness["offset"] = offset
+    q = N + "_read_block_items"
+    n_block_items_loops(P, q, n)
+    kind, res = outcome(P, lambda: call(P, q, doc, offset=offset))
+
+    def post(res):
+        items, r = res
+        P.prove("post.returned_offset_ge_offset_minus_1", zint(r) >= offset.z - 1)
+        P.prove("post.every_item_has_a_first_line", items_wellshaped(P, items, False, "post"))
+    finish(P, doc, kind, res, post=post)
+
+
+@contract("C12", "numpy._read_block", [N + "_read_block"], floor=5, replay="replay_parsers")
+def c_n_read_block(P):
+    install_env(P)
+    doc, lines, n = mk_docstring(P)
+    offset = P.fresh_int("offset")
+    P.assume(rd_pre(n.z, offset.z))
+    P.witness["offset"] = offset
+    q = N + "_read_block"
+
+    def inv0(P_, L, pre):
+        return z3.And(zint(L.new_offset) >= zint(pre["offset"]), zint(L.new_offset) < n.z)
+    P.loop_specs[(q, 0)] = dict(mode="inv", name="skip_blank", inv=inv0, variant=lambda P_, L, pre: mk_int(n.z - zint(L.new_offset)))
+
+    def inv1(P_, L, pre):
+        return zint(L.new_offset) >= zint(pre["offset"])
+    P.loop_specs[(q, 1)] = dict(mode="inv", name="block", inv=inv1, variant=lambda P_, L, pre: mk_int(n.z - zint(L.new_offset)),
+                                hints={"block": hint_strlist, "is_empty": hint_bool})
+    kind, res = outcome(P, lambda: call(P, q, doc, offset=offset))
+
+    def post(res):
+        text, r = res
+        P.prove("post.returned_offset_ge_offset_minus_1", zint(r) >= offset.z - 1)
+        P.prove("post.returns_text", isinstance(text, (str, SStr)))
+    finish(P, doc, kind, res, post=post)
+
+
+N_OPTIONS = ["ignore_init_summary", "trim_doctest_flags", "warn_unknown_params"]
+
+
+def n_reader_driver(fname):
+    def driver(P):
+        install_env(P)
+        doc, lines, n = mk_docstring(P)
+        offset = P.fresh_int("offset")
+        P.assume(rd_pre(n.z, offset.z))
+        P.witness["offset"] = offset
+        install_helper_contracts(P)
+        P.opaque_hooks[N + "_read_block_items"] = contract_block_items(P, n, False)
+        P.opaque_hooks[N + "_read_block"] = contract_block(P, n)
+        q = N + fname
+        for f in ("_read_parameters", fname):
+            install_item_loops(P, N + f)
+        opts = sym_options(P, N_OPTIONS)
+        P.witness["options"] = dict(opts)
+        kind, res = outcome(P, lambda: call(P, q, doc, offset=offset, **opts))
+        finish(P, doc, kind, res, post=section_post(P, offset))
+    return driver
+
+
+for _f in N_READERS:
+    contract("C12", "numpy." + _f, [N + _f], floor=3, replay="replay_parsers", split=16)(n_reader_driver(_f))
+
+
+# =========================================================================== Sphinx: leaf readers and field readers
+S_READERS = ["_read_parameter_type", "_read_parameter", "_read_attribute_type", "_read_attribute", "_read_exception", "_read_return", "_read_return_type"]
+
+
+def sx_pre(n, o):
+    return z3.And(o >= 0, o < n)
+
+
+@contract("C12", "sphinx._consolidate_continuation_lines", [S + "_consolidate_continuation_lines"], floor=5, replay="replay_parsers")
+def c_s_consolidate(P):
+    install_env(P)
+    doc, lines, n = mk_docstring(P)
+    offset = P.fresh_int("offset")
+    P.assume(sx_pre(n.z, offset.z))
+    P.witness["offset"] = offset
+    q = S + "_consolidate_continuation_lines"
+
+    def inv(P_, L, pre):
+        return z3.And(zint(L.curr_line_index) >= zint(pre["offset"]) + 1, zint(L.curr_line_index) <= n.z)
+    P.loop_specs[(q, 0)] = dict(mode="inv", name="continuation", inv=inv, variant=lambda P_, L, pre: mk_int(n.z - zint(L.curr_line_index)),
+                                hints={"block": hint_strlist})
+    kind, res = outcome(P, lambda: call(P, q, lines, offset))
+
+    def post(res):
+        text, r = res
+        P.prove("post.next_index_within_the_lines", z3.And(zint(r) >= offset.z, zint(r) <= n.z - 1))
+        P.prove("post.returns_text", isinstance(text, (str, SStr)))
+    finish(P, doc, kind, res, post=post)
+
+
+def contract_consolidate(P, n):
+    def hook(P_, a, k):
+        off = a[1]
+        P_.prove("callee_pre.offset_within_the_lines", sx_pre(n.z, zint(off)))
+        r = P_.fresh_int("r_cont")
+        P_.assume(z3.And(r.z >= zint(off), r.z <= n.z - 1))
+        return (P_.fresh_str("consolidated"), r)
+    return hook
+
+
+@contract("C12", "sphinx._parse_directive", [S + "_parse_directive"], floor=3, replay="replay_parsers")
+def c_s_parse_directive(P):
+    install_env(P)
+    install_helper_contracts(P)
+    doc, lines, n = mk_docstring(P)
+    offset = P.fresh_int("offset")
+    P.assume(sx_pre(n.z, offset.z))
+    P.witness["offset"] = offset
+    P.opaque_hooks[S + "_consolidate_continuation_lines"] = contract_consolidate(P, n)
+    kind, res = outcome(P, lambda: call(P, S + "_parse_directive", doc, offset))
+
+    def post(res):
+        r = P.getattr(res, "next_index")
+        P.prove("post.next_index_within_the_lines", z3.And(zint(r) >= offset.z, zint(r) <= n.z - 1))
+        parts = P.getattr(res, "directive_parts")
+        inv = P.getattr(res, "invalid")
+        P.prove("post.valid_directive_has_parts", z3.Or(zbool(inv), zint(models._b_len(P, [parts], {})) >= 1))
+    finish(P, doc, kind, res, post=post)
+
+
+def contract_parse_directive(P, n):
+    def hook(P_, a, k):
+        off = a[1]
+        P_.prove("callee_pre.offset_within_the_lines", sx_pre(n.z, zint(off)))
+        r = P_.fresh_int("next_index")
+        P_.assume(z3.And(r.z >= zint(off), r.z <= n.z - 1))
+        invalid = P_.fresh_bool("directive_invalid")
+        parts = hint_strlist(P_, P_._fresh_name("directive_parts"))
+        P_.assume(z3.Or(invalid.z, zint(parts.len) >= 1))
+        return SObj("_ParsedDirective", {"line": P_.fresh_str("directive_line"), "next_index": r, "directive_parts": parts,
+                                         "value": P_.fresh_str("directive_value"), "invalid": invalid}, ident=P_.new_ident())
+    return hook
+
+
+def mk_element(P, cls, tag):
+    return SObj(cls, {"name": P.fresh_str(tag + "_name"), "annotation": hint_annotation(P, tag + "_annotation"),
+                      "description": P.fresh_str(tag + "_description"), "value": hint_annotation(P, tag + "_value")}, ident=P.new_ident())
+
+
+def mk_parsed_values(P, tag="pv", with_keys=False):
+    def smap(name, mk):
+        HAS = z3.Function(f"{tag}_{name}_has", StrS, BoolS)
+        cache = {}
+
+        def get(k):
+            key = zstr(k).sexpr()
+            if key not in cache:
+                cache[key] = mk(f"{tag}_{name}_v{len(cache)}")
+            return cache[key]
+        keys = None
+        if with_keys:
+            nk = P.fresh_int(f"{tag}_{name}_nkeys")
+            P.assume(nk.z >= 0)
+            KF = z3.Function(f"{tag}_{name}_key", IntS, StrS)
+            keys = SSeq(nk, lambda i: SStr(KF(zint(i))), tag=f"{tag}_{name}_keys")
+        return SMap(lambda k: HAS(zstr(k)), get, tag=name, keys_seq=keys)
+    return SObj("_ParsedValues", {
+        "description": MList(hint_strlist(P, tag + "_description")),
+        "parameters": smap("parameters", lambda t: mk_element(P, "DocstringParameter", t)),
+        "param_types": smap("param_types", lambda t: P.fresh_str(t)),
+        "attributes": smap("attributes", lambda t: mk_element(P, "DocstringAttribute", t)),
+        "attribute_types": smap("attribute_types", lambda t: P.fresh_str(t)),
+        "exceptions": MList(hint_objlist(P, tag + "_exceptions")),
+        "return_value": opt(P, tag + "_return_value", lambda: mk_element(P, "DocstringReturn", tag + "_ret")),
+        "return_type": opt(P, tag + "_return_type", lambda: P.fresh_str(tag + "_return_type_s")),
+    }, ident=P.new_ident())
+
+
+def s_reader_driver(fname):
+    def driver(P):
+        install_env(P)
+        install_helper_contracts(P)
+        doc, lines, n = mk_docstring(P)
+        offset = P.fresh_int("offset")
+        P.assume(sx_pre(n.z, offset.z))
+        P.witness["offset"] = offset
+        P.opaque_hooks[S + "_parse_directive"] = contract_parse_directive(P, n)
+        pv = mk_parsed_values(P)
+        opts = sym_options(P, ["warn_unknown_params"])
+        kind, res = outcome(P, lambda: call(P, S + fname, doc, offset, pv, **opts))
+
+        def post(r):
+            P.prove("post.returns_an_index_not_before_the_directive", z3.And(zint(r) >= offset.z, zint(r) <= n.z - 1))
+        finish(P, doc, kind, res, post=post)
+    return driver
+
+
+for _f in S_READERS:
+    contract("C12", "sphinx." + _f, [S + _f], floor=3, replay="replay_parsers", split=16)(s_reader_driver(_f))
+
+
+@contract("C12", "sphinx._parsed_values_to_sections", [S + "_parsed_values_to_sections", S + "_strip_blank_lines"], floor=2, replay="replay_parsers")
+def c_s_to_sections(P):
+    install_env(P)
+    doc, lines, n = mk_docstring(P)
+    pv = mk_parsed_values(P, with_keys=True)
+    q = S + "_strip_blank_lines"
+    P.loop_specs[(q, 0)] = dict(mode="inv", name="scan", hints={"content_found": hint_bool, "initial_content": hint_int, "final_content": hint_int,
+                                                                  "index": hint_int, "line": lambda P_, nm: P_.fresh_str(nm)})
+    kind, res = outcome(P, lambda: call(P, S + "_parsed_values_to_sections", pv))
+
+    def post(r):
+        seq = as_seq(P, r) if not isinstance(r, (list, tuple)) else r
+        P.prove("post.first_section_is_text", len(seq) >= 1 and isinstance(seq[0], SObj) and P.resolve_cls(seq[0]) == "DocstringSectionText")
+    finish(P, doc, kind, res, post=post)
+
+
+def contract_sphinx_reader(P, n):
+    def hook(P_, a, k):
+        off = a[1]
+        P_.prove("callee_pre.field_reader_called_on_a_line", sx_pre(n.z, zint(off)))
+        r = P_.fresh_int("r_field")
+        P_.assume(z3.And(r.z >= zint(off), r.z <= n.z - 1))
+        return r
+    return hook
+
+
+@contract("C12", "sphinx.parse_sphinx", [S + "parse_sphinx", S + "_FieldType.matches"], floor=4, replay="replay_parsers", split=16)
+def c_parse_sphinx(P):
+    install_env(P)
+    install_helper_contracts(P)
+    doc, lines, n = mk_docstring(P)
+    for f in S_READERS:
+        P.opaque_hooks[S + f] = contract_sphinx_reader(P, n)
+    P.opaque_hooks[S + "_parsed_values_to_sections"] = lambda P_, a, k: hint_sections(P_, "result_sections")
+    q = S + "parse_sphinx"
+
+    def inv(P_, L, pre):
+        return zint(L.curr_line_index) >= 0
+    P.loop_specs[(q, 0)] = dict(mode="inv", name="main", inv=inv, variant=lambda P_, L, pre: mk_int(n.z - zint(L.curr_line_index)),
+                                hints={"line": lambda P_, nm: P_.fresh_str(nm), "field_type": lambda P_, nm: None,
+                                       "parsed_values": lambda P_, nm: mk_parsed_values(P_, nm.replace("@", "_"))},
+                                mutates=("parsed_values",))
+    opts = sym_options(P, ["warn_unknown_params"])
+    kind, res = outcome(P, lambda: call(P, q, doc, **opts))
+    finish(P, doc, kind, res, post=lambda r: P.prove("post.returns_sections", isinstance(r, SSeq)))
 
 
 # =========================================================================== main loops
@@ -514,6 +864,7 @@ def c_parse_google(P):
     install_env(P)
     doc, lines, n = mk_docstring(P)
     install_tables(P, "_griffe.docstrings.google", n, "google")
+    install_helper_contracts(P)
     P.opaque_hooks[G + "_read_block"] = contract_block(P, n)
     q = G + "parse_google"
     main_loop_spec(P, q, n)
@@ -549,3 +900,68 @@ def lemmas(tier, seed):
                     "detail": f"{nk} section titles map to kinds that all have a reader ({nr} readers); every reader in the table is under contract"
                               + (f"; kinds without reader: {missing}" if missing else "") + (f"; readers without contract: {uncontracted}" if uncontracted else "")})
     return out
+
+
+# =========================================================================== Numpy main loop, dispatcher
+@contract("C12", "numpy.parse_numpy", [N + "parse_numpy", N + "_append_section", N + "_is_dash_line", N + "_is_empty_line"], floor=4,
+          replay="replay_parsers", split=16)
+def c_parse_numpy(P):
+    install_env(P)
+    doc, lines, n = mk_docstring(P)
+    install_tables(P, "_griffe.docstrings.numpy", n, "numpy")
+    install_helper_contracts(P)
+    q = N + "parse_numpy"
+    main_loop_spec(P, q, n)
+    opts = sym_options(P, N_OPTIONS)
+    P.witness["options"] = dict(opts)
+    kind, res = outcome(P, lambda: call(P, q, doc, **opts))
+    finish(P, doc, kind, res, post=lambda r: P.prove("post.returns_a_list_of_sections", isinstance(r, (list, SSeq)) or type(r).__name__ in ("SCat", "MList")))
+
+
+@contract("C12", "parsers.parse", ["_griffe.docstrings.parsers:parse", "_griffe.models:Docstring.parse"], floor=2, replay="replay_parsers")
+def c_parse_dispatch(P):
+    """Docstring.parse -> parsers.parse: every Parser member (and its string value) reaches a contracted parser; no parser -> one text section."""
+    install_env(P)
+    doc, lines, n = mk_docstring(P)
+    called = []
+    for mod, fn in (("google", "parse_google"), ("numpy", "parse_numpy"), ("sphinx", "parse_sphinx")):
+        def hook(P_, a, k, fn=fn):
+            called.append(fn)
+            return hint_sections(P_, "sections_" + fn)
+        P.opaque_hooks[f"_griffe.docstrings.{mod}:{fn}"] = hook
+        P.opaque_hooks[f"_griffe.docstrings.parsers:{fn}"] = hook
+    P.opaque_hooks["_griffe.docstrings.parsers:parse_auto"] = lambda P_, a, k: hint_sections(P_, "sections_auto")
+    members = P.enum_members("Parser")
+    kk = P.fresh_int("parser_choice")
+    P.assume(z3.And(kk.z >= 0, kk.z <= 2 * len(members)))
+    alts = [(kk.z == i, m) for i, m in enumerate(members)] + [(kk.z == len(members) + i, m.value) for i, m in enumerate(members)] + [(kk.z == 2 * len(members), None)]
+    parser = P.choose(SUnion(alts))
+    doc.fields["parser"] = None
+    doc.fields["parser_options"] = {}
+    kind, res = outcome(P, lambda: call(P, "_griffe.models:Docstring.parse", doc, parser))
+
+    def post(r):
+        if parser is None:
+            seq = r if isinstance(r, (list, tuple)) else None
+            P.prove("post.no_parser_gives_one_text_section", seq is not None and len(seq) == 1 and P.resolve_cls(seq[0]) == "DocstringSectionText")
+        else:
+            P.prove("post.parser_reached", isinstance(r, SSeq))
+    finish(P, doc, kind, res, post=post)
+
+
+def bounded_checks(tier, seed):
+    import json, os, subprocess, time
+    from pyvc.run import VERIF, VENV_PY, REPO_SRC
+    t0 = time.time()
+    max_lines, budget = (3, 60) if tier == "quick" else (4, 900)
+    r = subprocess.run([VENV_PY, "-m", "replay.C12", str(seed), str(max_lines), str(budget), "1" if tier != "quick" else "0"], capture_output=True, text=True,
+                       cwd=str(VERIF), env=dict(os.environ, PYTHONPATH=str(REPO_SRC)), timeout=budget + 600)
+    if r.returncode != 0:
+        raise RuntimeError("bounded C12 corpus crashed: " + r.stderr[-1500:])
+    d = json.loads(r.stdout.strip().splitlines()[-1])
+    return [{"check": "docstring_corpus", "tool": "native parsers on generated docstrings (line kinds of each style incl. malformed items, lone surrogates, code fences, "
+             "dash lines) x option valuations x parent kinds (none, module, class, __init__, function, generator, iterator, property, attribute, classes with "
+             "unresolvable / cyclic alias members); clauses: terminates (5 s watchdog), no exception, list of well-formed sections (as_dict), docstring and parent "
+             "unmodified, plain text comes back as one text section",
+             "bound": f"all docstrings of <= {max_lines - 1} lines over the line kinds, random ones of {max_lines}..12 lines for {budget}s; plain-text docstrings <= 4 lines",
+             "cases": d["cases"], "failing": len(d["bad"]), "wall_s": round(time.time() - t0, 1), "violations": d["bad"]}]
